@@ -565,30 +565,50 @@ func (n *vcNode) project() map[string]interface{} {
 	if rs.ProposalBlockParts != nil {
 		partsHdr = net.nameOfPSH(rs.ProposalBlockParts.Header())
 	}
-	pv := []map[string]string{}
-	pc := []map[string]string{}
+	pv := []map[string]interface{}{}
+	pc := []map[string]interface{}{}
 	tracked := []int{}
+	blockNames := []string{"nil"}
+	for name := range net.blocks {
+		blockNames = append(blockNames, name)
+	}
+	sort.Strings(blockNames)
+	projVS := func(vs *types.VoteSet) map[string]interface{} {
+		votes := map[string]string{}
+		by := [][]string{}
+		maj := "none"
+		for _, name := range net.names {
+			votes[name] = "none"
+		}
+		if vs != nil {
+			for _, name := range net.names {
+				if vt := vs.GetByIndex(net.index[name]); vt != nil {
+					votes[name] = net.nameOfBlockID(vt.BlockID)
+				}
+			}
+			if bid, ok := vs.TwoThirdsMajority(); ok {
+				maj = net.nameOfBlockID(bid)
+			}
+			for _, bn := range blockNames {
+				bid, _ := net.blockID(bn)
+				if ba := vs.BitArrayByBlockID(bid); ba != nil {
+					for _, name := range net.names {
+						if ba.GetIndex(int(net.index[name])) {
+							by = append(by, []string{bn, name})
+						}
+					}
+				}
+			}
+		}
+		return map[string]interface{}{"votes": votes, "maj": maj, "by": by}
+	}
 	for r := 0; r <= net.maxRound; r++ {
-		a, b := map[string]string{}, map[string]string{}
 		pvs, pcs := rs.Votes.Prevotes(int32(r)), rs.Votes.Precommits(int32(r))
 		if pvs != nil {
 			tracked = append(tracked, r)
 		}
-		for _, name := range net.names {
-			a[name], b[name] = "none", "none"
-			if pvs != nil {
-				if vt := pvs.GetByIndex(net.index[name]); vt != nil {
-					a[name] = net.nameOfBlockID(vt.BlockID)
-				}
-			}
-			if pcs != nil {
-				if vt := pcs.GetByIndex(net.index[name]); vt != nil {
-					b[name] = net.nameOfBlockID(vt.BlockID)
-				}
-			}
-		}
-		pv = append(pv, a)
-		pc = append(pc, b)
+		pv = append(pv, projVS(pvs))
+		pc = append(pc, projVS(pcs))
 	}
 	decision := "nil"
 	if cs.blockStore.Height() >= 1 {
@@ -744,6 +764,25 @@ func (net *vcNet) step(w *vcWriter, run int, st vcStep) bool {
 	wasDecided := n.decided
 	switch st.Name {
 	case "Deliver":
+		if st.M.T == "claim_prevote" || st.M.T == "claim_precommit" {
+			// a VoteSetMaj23 message: the reactor calls Votes.SetPeerMaj23 directly (consensus/reactor.go)
+			bid, okb := net.blockID(st.M.V)
+			if !okb || n.cs.Height != 1 {
+				return false
+			}
+			vt := tmproto.PrevoteType
+			if st.M.T == "claim_precommit" {
+				vt = tmproto.PrecommitType
+			}
+			n.guarded(func() {
+				n.cs.mtx.Lock()
+				_ = n.cs.Votes.SetPeerMaj23(int32(st.M.R), vt, p2p.ID(st.M.Src), bid)
+				n.cs.mtx.Unlock()
+			})
+			ev["m"] = st.M
+			ev["peer"] = st.M.Src
+			break
+		}
 		it, ok := net.concretize(st.M)
 		if !ok {
 			return false
